@@ -95,8 +95,46 @@ def gen_simple_op(rng, keys, values):
     return ["sete", k.hex()]
 
 
-def gen_history(rng, keys, values, nops, batch_prob=0.15, raise_prob=0.3):
+def gen_twin_setup(rng):
+    """Identical sub-tries under two or three prefixes: the same tails with the same long values below each prefix, so the
+    branch (and extension) bodies below the prefixes are ONE stored node referenced several times (reference count >= 2
+    for an inner node, not only for leaves). Returns (keys, values, setup ops)."""
+    plen = rng.choice([1, 2, 2])
+    first = bytes(rng.choice(BYTE_ALPHABET) for _ in range(plen))
+    prefixes = {first}
+    want = rng.choice([2, 2, 3])
+    for _ in range(20):
+        if len(prefixes) >= want:
+            break
+        p = bytearray(first)
+        i = rng.randrange(plen)
+        p[i] = rng.choice([p[i] ^ 0x10, p[i] ^ 0x01, p[i] ^ 0xff, rng.choice(BYTE_ALPHABET)]) & 0xff
+        prefixes.add(bytes(p))
+    prefixes = sorted(prefixes)
+    stem = bytes(rng.choice(BYTE_ALPHABET) for _ in range(rng.choice([0, 0, 1])))
+    tails = set()
+    want = rng.choice([2, 3, 3])
+    for _ in range(20):
+        if len(tails) >= want:
+            break
+        tails.add(stem + bytes([rng.choice([0x01, 0x02, 0x03, 0x10, 0x1f, 0xf0, 0x00, 0xff])]))
+    tails = sorted(tails)
+    vals = {t: bytes([rng.choice(b"xyz")]) * rng.choice([33, 40, 40, 56]) for t in tails}
+    setup = [["set", (p + t).hex(), vals[t].hex()] for p in prefixes for t in tails]
+    rng.shuffle(setup)
+    keys = [p + t for p in prefixes for t in tails] + prefixes
+    return keys, sorted(set(vals.values())), setup
+
+
+def gen_history(rng, keys, values, nops, batch_prob=0.15, raise_prob=0.3, twins=0.12):
     ops = []
+    if rng.random() < twins:
+        tkeys, tvals, setup = gen_twin_setup(rng)
+        ops += setup
+        # the mutations that follow mostly hit the twin keys
+        keys = tkeys * 3 + list(keys)
+        values = list(values) + tvals
+        nops += len(ops)
     while len(ops) < nops:
         if rng.random() < batch_prob:
             inner = [gen_simple_op(rng, keys, values) for _ in range(rng.randint(0, 5))]
